@@ -26,9 +26,11 @@ TRUSTED_BASE = [
 ]
 
 
-def S(comp, proj, checks, quick, thorough, params=None, explicit=None, exhaustive=False):
+def S(comp, proj, checks, quick, thorough, params=None, explicit=None, exhaustive=False, direct=None):
+    """direct: name of the theorem by which the model's output IS the property's specification for this
+    component, so that a disagreement is itself a concrete violation (not merely a broken correspondence)"""
     return {"component": comp, "proj": proj, "checks": checks, "quick": quick, "thorough": thorough,
-            "params": params or {}, "explicit": explicit, "exhaustive": exhaustive}
+            "params": params or {}, "explicit": explicit, "exhaustive": exhaustive, "direct": direct}
 
 
 def sim_stream(proj, chk, extra=None, nq=3000, nt=150000):
@@ -48,20 +50,28 @@ def icase_scope(tier):
 
 
 def bag_scope(tier):
+    """(1) all pairs of records over two units with lists up to length 1 (quick) / 2 (thorough) from a
+    3-value domain, in both insertion orders, with and without an empty unit; (2) all pairs of one-unit
+    records with lists up to length 3 (quick) / 4 (thorough) from the same domain (multiplicities)"""
     vals = [[0, "U"], [0, "D"], [1, "U"]]
-    maxlen = 1 if tier == "quick" else 2
-    lists = [[]]
-    for k in range(1, maxlen + 1):
-        lists += [list(map(list, t)) for t in itertools.product(vals, repeat=k)]
-    keys = ["u0", "u1"]
+
+    def lists(maxlen):
+        out = [[]]
+        for k in range(1, maxlen + 1):
+            out += [list(map(list, t)) for t in itertools.product(vals, repeat=k)]
+        return out
+    l2 = lists(1 if tier == "quick" else 2)
     recs = []
-    for l0 in lists:
-        for l1 in lists:
+    for l0 in l2:
+        for l1 in l2:
             recs.append([["u0", l0], ["u1", l1]])
             recs.append([["u1", l1], ["u0", l0]])
         recs.append([["u0", l0]])
     recs.append([])
-    return [{"a": a, "b": b} for a in recs for b in recs]
+    cases = [{"a": a, "b": b} for a in recs for b in recs]
+    l1 = lists(3 if tier == "quick" else 4)
+    cases += [{"a": [["u0", a]], "b": [["u0", b]]} for a in l1 for b in l1]
+    return cases
 
 
 def regq_scope(tier):
@@ -167,14 +177,15 @@ PROPS = {
                         S("mkproc", "all", ["C12"], 2000, 60000, {"nmax": 8}),
                         S("loader", "exact", ["C12"], 2000, 60000, {"valid": 0.9, "defect": 0.05, "dead": 0.2})]},
     "C13": {"streams": [S("recase", "all", [], 2500, 80000)]},
-    "C14": {"streams": [S("parse", "all", ["C14", "C14x"], 4000, 150000)]},
-    "C15": {"streams": [S("isa", "all", ["C15"], 3000, 100000), S("abilities", "all", ["C15"], 1000, 30000)]},
+    "C14": {"streams": [S("parse", "all", ["C14", "C14x"], 4000, 150000, direct="C14_roundtrip / C14_no_operands / C14_empty_operand")]},
+    "C15": {"streams": [S("isa", "all", ["C15"], 3000, 100000, direct="C15_isa_ok / C15_isa_first_defect / C15_compile_ok / C15_compile_fail"),
+                        S("abilities", "all", ["C15"], 1000, 30000, direct="C15_abilities")]},
     "C16": {"streams": [S("pipeline", "all", ["C16", "TC01", "TC02", "TC03", "TC04", "TC05", "TC06", "TC07", "TC08"],
                           160, 1500)]},
-    "C17": {"streams": [S("bag", "all", [], 0, 0, explicit=bag_scope, exhaustive=True),
-                        S("bag", "all", [], 3000, 100000)]},
-    "C18": {"streams": [S("icase", "all", ["C18"], 0, 0, explicit=icase_scope, exhaustive=True),
-                        S("icase", "all", ["C18"], 3000, 100000)]},
+    "C17": {"streams": [S("bag", "all", [], 0, 0, explicit=bag_scope, exhaustive=True, direct="C17_eq_iff / C17_len / C17_repr"),
+                        S("bag", "all", [], 3000, 100000, direct="C17_eq_iff / C17_len / C17_repr")]},
+    "C18": {"streams": [S("icase", "all", ["C18"], 0, 0, explicit=icase_scope, exhaustive=True, direct="C18_eq / C18_order / C18_contains / C18_str"),
+                        S("icase", "all", ["C18"], 3000, 100000, direct="C18_eq / C18_order / C18_contains / C18_str")]},
     "C20": {"custom": None},
     "C19": {"streams": [S("regq", "all", ["C19"], 0, 0, explicit=regq_scope, exhaustive=True),
                         S("regq", "all", ["C19"], 2000, 60000)]},
@@ -301,9 +312,15 @@ def _judge_stream(stream, reps, failures, cov, stats):
         if not _agree(r, stream["proj"]):
             d = r.get("diff") or {}
             cov["disagreements"] = cov.get("disagreements", 0) + 1
-            failures.append({"kind": "correspondence", "component": stream["component"], "case": r["case"],
-                             "impl": d.get("impl", r.get("impl")), "model": d.get("model"),
-                             "detail": f"model and implementation differ through projection {stream['proj']}"})
+            if stream.get("direct"):
+                failures.append({"kind": "checker", "component": stream["component"], "case": r["case"],
+                                 "impl": d.get("impl", r.get("impl")), "model": d.get("model"),
+                                 "detail": "the implementation's result differs from the model's, which is the property's "
+                                           f"specification by theorem {stream['direct']}"})
+            else:
+                failures.append({"kind": "correspondence", "component": stream["component"], "case": r["case"],
+                                 "impl": d.get("impl", r.get("impl")), "model": d.get("model"),
+                                 "detail": f"model and implementation differ through projection {stream['proj']}"})
         elif isinstance(r["agree"], dict) and not all(r["agree"].values()):
             cov["differences_outside_projection"] = cov.get("differences_outside_projection", 0) + 1
 
